@@ -326,6 +326,9 @@ def run(rep, tier):
     acc_rule(rep, f)
     stats_rules(rep, f)
     rep.extra["call_sites"] = dict(ode=n_ode, jac=n_jac)
+    rep.rule("R-ZERO-SPAN", "solve_ivp answers a zero-length run itself: the shortcut's condition holds for x0 == xend at every magnitude of the end points, 0 included (numeric evaluation of the symbolic condition)")
+    import obs as _obs
+    _obs.r_zero_span(rep, f)
     rep.explanation = ("All-paths structural check: a monitor automaton over the structured control flow of each solver's solve() pairs every "
                        "IVP::ode / IVP::jac call with a counter increment (per path, per loop cycle), ties Steps::accepted to the per-step callback, and "
                        "checks the statistics copy in solve_ivp. Decides counting for every input; nothing numerical is involved. "
